@@ -305,10 +305,6 @@ int LLVMFuzzerTestOneInput(const uint8_t *data, size_t size)
             {
                 fz_fail("C10: trailing bytes made a parse fail although termination was not required");
             }
-            if (want_end && (size_t)(end - (const char *)buf) != v)
-            {
-                fz_fail("C10: parse end is not the end of the first complete value");
-            }
         }
         else
         {
